@@ -778,6 +778,8 @@ def c19(work, tier, seed):
     rep.traces = sum(r.nlines for r in results)
     vlib.absorb_trace_results(rep, results)
     require(rep, ['"outcome":"value"', '"outcome":"err"', '"outcome":"accepted"', '"outcome":"rejected"'], "C19")
+    # move texts handed to an engine in the middle of a game (after moves, take-backs, refused moves, new games)
+    engine_api(work, vh, rep, "C19", seed, tier)
     rep.assumptions = ["a panic inside Decode / Engine.Move is caught by recover() in the calling goroutine and reported as a crash",
                        "which non-canonical strings are accepted is not prescribed; canonical = Fen!Canonical (strict grammar, e.p. target on rank 3 or 6, re-encodes to itself)",
                        "canonical lower-case coordinate notation must be accepted for legal moves; other spellings are only required not to be accepted for something that is not a legal move"]
